@@ -28,7 +28,7 @@ type c08Stream struct{ prop string }
 func (s c08Stream) Name() string             { return "c08" }
 func (c08Stream) CaseTimeout() time.Duration { return 90 * time.Second }
 func (c08Stream) Rule() string {
-	return "K connections (1..12; plain / TLS / StartTLS) opened in two waves (reconnects after earlier ones closed), each tagged by the client, each with an in-flight state (no handler / two handlers blocked until after the ending / two handlers writing large results) and an ending (client close, RST, Unbind, malformed frame, unsupported operation, mid-frame disconnect, read timeout, recovered panic in an inline handler, server Stop), many ending concurrently; oracle: exactly one OnClose per accepted connection carrying the ConnectionID its requests saw, after the exit of every handler of that connection; the client sees the socket closed; all ConnectionIDs positive, stable and pairwise distinct over the server's life; goroutine and descriptor counts return to the baseline; trace replayed through the connection automaton; non-trivial = at least one connection with handlers in flight at its ending, distinct by scenario"
+	return "K connections (1..12; plain / TLS / StartTLS) opened in two waves (reconnects after earlier ones closed), each tagged by the client, each with an in-flight state (no handler / two handlers blocked until after the ending / two handlers writing large results / two handlers just spawned when the ending arrives in the same TCP segment / one of two handlers panicking on its request goroutine) and an ending (client close, RST, Unbind, malformed frame, unsupported operation, mid-frame disconnect, read timeout, recovered panic in an inline handler, server Stop), many ending concurrently; oracle: exactly one OnClose per accepted connection carrying the ConnectionID its requests saw, after the exit of every handler of that connection; the client sees the socket closed; all ConnectionIDs positive, stable and pairwise distinct over the server's life; goroutine and descriptor counts return to the baseline; trace replayed through the connection automaton; non-trivial = at least one connection with handlers in flight at its ending, distinct by scenario"
 }
 
 var c08Endings = []string{"close", "rst", "unbind", "malformed", "unsupported", "midframe", "timeout", "panic", "stop"}
@@ -42,7 +42,7 @@ func (c08Stream) Generate(rng *rand.Rand, n int, thorough bool) []Case {
 			ending = "mixed"
 		}
 		cs = append(cs, Case{Line: fmt.Sprintf("c08 conns=%d ending=%s inflight=%s mode=%s seed=%d", k, ending,
-			[]string{"none", "blocked", "writing"}[rng.Intn(3)], []string{"plain", "plain", "tls", "starttls"}[rng.Intn(4)], rng.Intn(1<<30)), Kind: ending})
+			[]string{"none", "blocked", "writing", "racing", "panicking"}[rng.Intn(5)], []string{"plain", "plain", "tls", "starttls"}[rng.Intn(4)], rng.Intn(1<<30)), Kind: ending})
 	}
 	return cs
 }
@@ -82,6 +82,12 @@ func (c08Stream) Impl(c Case) string {
 			}
 			tagConn[m.BaseDN][r.ConnectionID()] = true
 			mu.Unlock()
+			if inflight == "racing" {
+				// still running when the read loop meets the ending that follows in the same segment
+				time.Sleep(30 * time.Millisecond)
+			} else if inflight == "panicking" && m.GetID() == 11 {
+				panic("handler panic injected by the harness (request goroutine)")
+			}
 			if inflight == "blocked" {
 				<-released
 			} else if inflight == "writing" {
@@ -149,6 +155,27 @@ func (c08Stream) Impl(c Case) string {
 					buf = append(buf, nd.Ser()...)
 				}
 			}
+			if inflight == "racing" {
+				// the ending travels in the same segment as the requests: the read loop reaches it while the
+				// handlers it has just spawned have barely started
+				switch e {
+				case "unbind":
+					buf = append(buf, Seq(Int(2, 99), P(1, 2, nil)).Ser()...)
+				case "malformed":
+					buf = append(buf, 0x30, 0x03, 0x02, 0x01, 0xff, 0xff, 0xff, 0xff)
+				case "unsupported":
+					buf = append(buf, Seq(Int(2, 98), C(1, 12, Oct("cn=a"), Oct("cn=b"), Bool(true))).Ser()...)
+				case "midframe":
+					f := opFrame("search", 97)
+					buf = append(buf, f[:len(f)/2]...)
+				case "panic":
+					buf = append(buf, Seq(Int(2, 96), P(1, 2, nil)).Ser()...)
+				}
+				if err := cl.send(buf); err != nil {
+					fail("harness-error send: %v", err)
+				}
+				continue
+			}
 			if err := cl.send(buf); err != nil {
 				fail("harness-error send: %v", err)
 			}
@@ -156,7 +183,7 @@ func (c08Stream) Impl(c Case) string {
 				fail("harness-error bind response: %v", err)
 			}
 		}
-		if inflight != "none" {
+		if inflight != "none" && inflight != "racing" {
 			// both searches of every connection must have been dispatched
 			deadline := time.Now().Add(10 * time.Second)
 			for time.Now().Before(deadline) {
@@ -174,6 +201,9 @@ func (c08Stream) Impl(c Case) string {
 			wg.Add(1)
 			go func(x cli) {
 				defer wg.Done()
+				if inflight == "racing" && x.ending != "rst" {
+					return
+				}
 				switch x.ending {
 				case "close", "stop", "timeout":
 				case "rst":
